@@ -5,12 +5,29 @@
     complex build).  [car_eigenbasis_partial] takes the anticommutation relations of the Jordan-Wigner matrices in the
     Fock basis as hypotheses (they are C05's theorems on basis states: CAR.anticommute_distinct, CAR.same_op_twice,
     CAR.car_same_index); unitarity of the assembled eigenvector matrix is C03 (certified per run).
-    The correspondence between the list-level model of FieldOperatorPart::compute (HPart.fop_fill / fop_dense) and the
-    matrices LeftMat / RightMat below is established per run by checks/C10.py (model vs. dump vs. specification). *)
+    [rotation_formula_model] is the end-to-end statement for the executable model: HPart.fop_dense (the list-level model of
+    FieldOperatorPart::compute that the correspondence check runs against the code), instantiated at any field with exact zero
+    tests, never leaves its arrays and returns U_to^+ (Jordan-Wigner block) U_from, on every pair of blocks the operator
+    respects (single-target condition: C07). *)
 From mathcomp Require Import all_ssreflect all_algebra.
-From PV Require Import Outcome Fock Poly PolySem EDSpec HPart HPartSpec HPartProofs FockAdjoint Rotate.
+From PV Require Import Outcome Fock Poly PolySem EDSpec HPart HPartSpec HPartProofs FockAdjoint Rotate RotateBridge.
 Import GRing.Theory.
 Local Open Scope ring_scope.
+
+(** the model of FieldOperatorPart::compute returns the rotated Jordan-Wigner block *)
+Theorem rotation_formula_model :
+  forall (F : fieldType) (conj : {rmorphism F -> F}) (fb : bool) (S : classification) (o : fop) (from to : nat)
+         (fromStates toStates : list nat) (Hfrom Hto : mat F),
+  wf_class S -> mono_in_range (sc_M S) (fop_mono o) ->
+  List.nth_error (sc_states S) from = Some fromStates -> List.nth_error (sc_states S) to = Some toStates ->
+  square F (length fromStates) Hfrom -> square F (length toStates) Hto ->
+  (forall Kst L sg, List.In Kst fromStates -> tgt_of F (Fops conj) (sc_M S) o Kst = Some (L, sg) -> List.In L toStates) ->
+  exists D : mat F,
+    fop_dense fb F (Fops conj) 0 S o from to Hfrom Hto = Done D /\
+    (\matrix_(n < length toStates, m < length fromStates) mget F (Fops conj) D n m) =
+    adj conj (Uto conj toStates Hto) *m JWblock conj S o fromStates toStates *m Ufrom conj fromStates Hfrom.
+Proof. move=> F conj fb S o from to fromStates toStates Hfrom Hto; exact: fop_dense_is_rotated_jw. Qed.
+Print Assumptions rotation_formula_model.
 
 (** the two-loop construction of FieldOperatorPart::compute is U_to^+ O U_from *)
 Theorem rotation_formula :
@@ -102,3 +119,31 @@ Theorem pruning_bound :
    nre_ltb K NO (nabs K NO reference) (nabs K NO (mget K NO m i j)) = false).
 Proof. exact HPartProofs.pruning_bound. Qed.
 Print Assumptions pruning_bound.
+
+(** the two loops of FieldOperatorPart::compute, list-level model: on a pair of blocks the operator respects they never
+    leave their arrays, and column k of LeftMat / row k of RightMat are exactly the entries that Rotate.LeftMat /
+    Rotate.RightMat are defined by (conj(U_to(l_k, n)) and sign_k * U_from(k, m); zero where O annihilates the k-th state) *)
+Theorem rotation_two_loops :
+  forall (fb : bool) (K : Type) (NO : numops K) (eps : K),
+  nre_ltb K NO (nabs K NO (n1 K NO)) eps = false ->
+  nre_ltb K NO (nabs K NO (nopp K NO (n1 K NO))) eps = false ->
+  nre_ltb K NO eps (nabs K NO (n1 K NO)) = true ->
+  nre_ltb K NO eps (nabs K NO (nopp K NO (n1 K NO))) = true ->
+  forall (S : classification) (o : fop) (from to : nat) (fromStates toStates : list nat) (Hfrom Hto : mat K),
+  wf_class S -> mono_in_range (sc_M S) (fop_mono o) ->
+  List.nth_error (sc_states S) from = Some fromStates -> List.nth_error (sc_states S) to = Some toStates ->
+  square K (length fromStates) Hfrom -> square K (length toStates) Hto ->
+  (forall Kst L sg, List.In Kst fromStates -> tgt_of K NO (sc_M S) o Kst = Some (L, sg) -> List.In L toStates) ->
+  exists Lc Rr,
+    fop_fill fb K NO eps S o Hfrom Hto (length toStates) (length fromStates) fromStates = Done (Lc, Rr) /\
+    length Lc = length fromStates /\ length Rr = length fromStates /\
+    forall k Kst, List.nth_error fromStates k = Some Kst ->
+      match tgt_of K NO (sc_M S) o Kst with
+      | Some (L, sg) => exists l, List.nth_error toStates l = Some L /\
+                          List.nth k Lc nil = left_column K NO Hto (length toStates) l /\
+                          List.nth k Rr nil = right_row K NO Hfrom (length fromStates) k sg
+      | None => List.nth k Lc nil = List.repeat (n0 K NO) (length toStates) /\
+                List.nth k Rr nil = List.repeat (n0 K NO) (length fromStates)
+      end.
+Proof. exact HPartProofs.fop_fill_char. Qed.
+Print Assumptions rotation_two_loops.
